@@ -19,6 +19,7 @@ import (
 	"os"
 	"runtime"
 	"sort"
+	"strings"
 	"sync"
 	"sync/atomic"
 	"time"
@@ -791,6 +792,55 @@ func c20conn(args []string) error {
 	if ce == nil {
 		return fmt.Errorf("no loopback connection")
 	}
+	// "badrec": A and B talk through a relay that can hold back the direction A -> B (so that a Write on A stays blocked in
+	// its transport, holding the sending half) and put a record that does not authenticate into the direction B -> A
+	var gate sync.Mutex
+	var inject func(rec []byte)
+	if closeMode == "badrec" {
+		if nwB != 0 {
+			return fmt.Errorf("badrec: B does not write")
+		}
+		ce.Close()
+		se.Close()
+		pa1, pa2 := net.Pipe()
+		pb1, pb2 := net.Pipe()
+		ce, se = pa1, pb1
+		go func() { // A -> B
+			buf := make([]byte, 1<<16)
+			for {
+				n, err := pa2.Read(buf)
+				if n > 0 {
+					gate.Lock()
+					gate.Unlock()
+					if _, e := pb2.Write(buf[:n]); e != nil {
+						pa2.Close()
+						return
+					}
+				}
+				if err != nil {
+					pb2.Close()
+					return
+				}
+			}
+		}()
+		go func() { // B -> A
+			buf := make([]byte, 1<<16)
+			for {
+				n, err := pb2.Read(buf)
+				if n > 0 {
+					if _, e := pa2.Write(buf[:n]); e != nil {
+						pb2.Close()
+						return
+					}
+				}
+				if err != nil {
+					pa2.Close()
+					return
+				}
+			}
+		}()
+		inject = func(rec []byte) { pa2.Write(rec) }
+	}
 	var cc, sc *gmtls.Config
 	if args[0] == "gm" {
 		suites := []uint16{gmtls.GMTLS_SM2_WITH_SM4_SM3}
@@ -860,6 +910,11 @@ func c20conn(args []string) error {
 				atomic.AddInt64(got, int64(n))
 			} else if err != nil {
 				inv.Err = err.Error()
+				if closeMode == "badrec" && e == "A" && strings.Contains(inv.Err, "local error") {
+					// this Read met the record that does not authenticate: it fails, and as part of the same call the
+					// endpoint tells its peer so (fatal alert), which ends the stream it sends
+					inv.Kind = "faultread"
+				}
 			} else {
 				continue // (0, nil): nothing happened
 			}
@@ -891,7 +946,29 @@ func c20conn(args []string) error {
 		conns[e].Close()
 		h.log(inv, ev20{Stamp: h.stamp(), Ev: "res", Op: op})
 	}
-	if closeMode == "half" {
+	if closeMode == "badrec" {
+		gate.Lock()
+	}
+	if closeMode == "badrec" {
+		// the writers on A are under way, the first of them blocked in its transport; now the forged record arrives
+		time.Sleep(40 * time.Millisecond)
+		rec := make([]byte, 5+64)
+		copy(rec, []byte{23, 3, 3, 0, 64})
+		if args[0] == "gm" {
+			rec[1], rec[2] = 1, 1
+		}
+		for i := 5; i < len(rec); i++ {
+			rec[i] = byte(i*37 + 11)
+		}
+		inject(rec)
+		time.Sleep(40 * time.Millisecond) // A's reader is answering with its alert, the writer still blocked
+		gate.Unlock()
+		wwg.Wait()
+		for i := 0; i < 400 && atomic.LoadInt64(&gotB) < atomic.LoadInt64(&sentA); i++ {
+			time.Sleep(5 * time.Millisecond)
+		}
+		time.Sleep(30 * time.Millisecond)
+	} else if closeMode == "half" {
 		// A half-closes in the middle of the traffic: its own writers fail from then on, B's reader sees the end of A's
 		// stream, but B goes on writing and A goes on reading until everything has arrived
 		halfway.Wait()
